@@ -4,7 +4,7 @@
    Initiated has been stored since" — i.e. PauseAndWait / Stop / WaitAndStop has returned and
    neither Resume nor Restart has been called. *)
 From Coq Require Import List Arith.
-From VQ Require Import SliceDisp SliceDispProofs Fifo FifoProofs.
+From VQ Require Import SliceDisp SliceDispProofs SliceBar SliceBarProofs Fifo FifoProofs.
 Import ListNotations.
 
 (* While the hold lasts no worker function is executing, none can start, no dispatcher can
@@ -39,6 +39,47 @@ Theorem C09_status_store_keeps_queues :
   forall s v s', dstep s (DStatusStore v) = Some s' -> jl s' = jl s /\ qj s' = qj s /\ cur s' = cur s.
 Proof. exact status_store_frame. Qed.
 Print Assumptions C09_status_store_keeps_queues.
+
+(* "After PauseAndWait, Stop or WaitAndStop has returned": the return is enabled only for a
+   caller that has established (coq/SliceBar.v); from the point where it did until Running /
+   Initiated is stored (Resume, Restart, start) or it calls again, the caller is fresh, and
+   while a caller is fresh the hold is in force. *)
+Theorem C09_return_needs_establishment :
+  forall s t s', xstep s (XRet t) = Some s' -> In t (est s) /\ s' = s.
+Proof. exact return_needs_establishment. Qed.
+Print Assumptions C09_return_needs_establishment.
+
+Theorem C09_establishment_is_a_hold_point :
+  forall s t v s', xstep s (XCurLoad t v) = Some s' -> In t (est s') -> ~ In t (est s) ->
+    v = 0 /\ halted (wstat (xd s)) = true /\ hold (xd s') = true /\ In t (fresh s').
+Proof. exact establishment_is_a_hold_point. Qed.
+Print Assumptions C09_establishment_is_a_hold_point.
+
+Theorem C09_fresh_until_resume :
+  forall s e s' t, xstep s e = Some s' -> In t (fresh s) ->
+    In t (fresh s') \/ (exists d, e = XD d /\ resumes d = true) \/ e = XCall t.
+Proof. exact fresh_until_resume. Qed.
+Print Assumptions C09_fresh_until_resume.
+
+Theorem C09_fresh_caller_holds :
+  forall s t, XReachable s -> In t (fresh s) ->
+    hold (xd s) = true /\ jl (xd s) <> JRun /\ dstep (xd s) DWfEnterJ = None /\ dstep (xd s) DDeqJ = None /\
+    okr (xd s) = 0 /\ oth (xd s) = 0.
+Proof. exact fresh_caller_holds. Qed.
+Print Assumptions C09_fresh_caller_holds.
+
+(* non-vacuity: a Stop that goes straight from Running to Stopped on an idle worker (it read 0
+   in flight while the worker was running) has not established: its return is outside the model *)
+Example C09_example_calls :
+  match xrun_from 1 [XCall 5; XStLoad 5 1; XCurLoad 5 0; XD (DStatusStore 3); XRet 5] with
+  | inr _ => False
+  | inl i => i = 4
+  end /\
+  match xrun_from 1 [XCall 5; XStLoad 5 1; XD (DStatusStore 2); XCurLoad 5 0; XD (DStatusStore 3); XRet 5] with
+  | inr s => fresh s = [5] /\ hold (xd s) = true
+  | inl _ => False
+  end.
+Proof. vm_compute. repeat split. Qed.
 
 Example C09_example :
   match drun_from 1 [DAcceptJ; DReserve 1 1; DStatusStore 2; DCurLoad 1; DRecheck 2; DUnresDoomed; DCurLoad 0] with
